@@ -758,6 +758,12 @@ class DHEat:
             family = socket.AF_INET if ip_version_preference[0] == 4 else socket.AF_INET6
 
         r = socket.getaddrinfo(host, 0, family, socket.SOCK_STREAM)
+
+        # With two preferences ("-46" / "-64"), try the addresses of the first-choice family before the others (as SSH_Socket does for the scan itself).
+        if len(ip_version_preference) == 2:
+            first_family = socket.AF_INET if ip_version_preference[0] == 4 else socket.AF_INET6
+            r = [x for x in r if x[0] == first_family] + [x for x in r if x[0] != first_family]
+
         for address_family, socktype, _, _, addr in r:
             if socktype == socket.SOCK_STREAM:
                 return int(address_family), str(addr[0])
